@@ -6,17 +6,19 @@ open StarsimModel StarsimModel.Intervention StarsimModel.Proto
 Line protocol for C20 (one operation per line, one canonical answer per line; `bad-op` for anything not understood).
 
   reset
+  clear <code|none>               syph_treatment: state array cleared for the treated after the treat_num step
+  reslen <n|none>                 length of the module's own result arrays (screening writes results[sim.ti])
   hascov 0|1                      whether the delivery class created self.coverage_dist (routine: 1, campaign: 0)
-  gate ti|t                       which gate the step uses (extracted from the source by the harness)
+  gate ti|own|t                    which gate the step uses (extracted from the source by the harness)
   hioff <int>                     constant added to max_capacity in the queue slice (extracted)
   routine <thr> <fineSub> <coarse> <vecPerTimepoint> <yearvec> <simStart> <simStop> <years|none> <sy|none> <ey|none> <prob> <annual> <dt>
   campaign <timevec> <years> <prob>
   flags <s> <uids>                disease state array number s is true exactly on these uids
   setrs <u:rat,...>               external change of rel_sus
-  vx <inert|leaky|aon> <eff> <fails> <ti> <active> <all|mask|uids|bad> <elig> <draws u:num53,...>
+  vx <inert|leaky|aon> <eff> <fail positions> <sim ti> <own ti> <active> <all|mask|uids|bad> <elig> <draws u:num53,...>
   dx <nres> <states>              the Dx product: number of results, state index per (disease,state) block
-  screen <ti> <active> <kind> <elig> <draws> <picks k:u:r,...>
-  triage <ti> <active> <kind> <elig> <draws> <picks>
+  screen <sim ti> <own ti> <active> <kind> <elig> <draws> <picks k:u:r,...>
+  triage <sim ti> <own ti> <active> <kind> <elig> <draws> <picks>
   tx <pre:eff:post,...>           the Tx product, one block per state in table order
   treat <cap|none> <p> <active> <kind> <elig> <draws> <effdraws k:u:num53,...>
 -/
@@ -42,6 +44,8 @@ structure D where
   sched : Sched := ⟨[], [], false, 1⟩
   gate : Gate := .onTi
   hasCov : Bool := true
+  resLen : Option Nat := none
+  clear : Option Nat := none
   hiOff : Int := 0
   known : List Nat := []
   vx : VxRec := ⟨fun _ => false, fun _ => 0, fun _ => none, fun _ => 1⟩
@@ -136,7 +140,7 @@ def showTest (d : D) (acc : List Nat) : String :=
 
 def showTreat (d : D) (treated : List Nat) : String :=
   let ks := sortedKnown d
-  let states := sortU (d.tx.foldl (fun l r => r.pre :: r.post :: l) [])
+  let states := sortU (d.tx.foldl (fun l r => r.pre :: r.post :: l) (d.clear.toList))
   let fl := "|".intercalate (states.map (fun s => s!"{s}={showList toString (ks.filter (d.treat.flags s))}"))
   s!"ok treated={showList toString treated} queue={showList toString d.treat.queue} succ={showList toString d.treat.successful} unsucc={showList toString d.treat.unsuccessful} flags={fl}"
 
@@ -150,10 +154,16 @@ def stepLine (d : D) (line : String) : D × String :=
   let bad := (d, "bad-op")
   match words line with
   | ["reset"] => ({ gate := d.gate, hiOff := d.hiOff }, "ok")
+  | ["clear", n] => match parseOptNat? n with
+      | some n => ({ d with clear := n }, "ok")
+      | none => bad
+  | ["reslen", n] => match parseOptNat? n with
+      | some n => ({ d with resLen := n }, "ok")
+      | none => bad
   | ["hascov", b] => match parseBool? b with
       | some b => ({ d with hasCov := b }, "ok")
       | none => bad
-  | ["gate", g] => if g = "ti" then ({ d with gate := .onTi }, "ok") else if g = "t" then ({ d with gate := .onTimeObj }, "ok") else bad
+  | ["gate", g] => if g = "ti" then ({ d with gate := .onTi }, "ok") else if g = "own" then ({ d with gate := .onOwnTi }, "ok") else if g = "t" then ({ d with gate := .onTimeObj }, "ok") else bad
   | ["hioff", k] => match parseInt? k with
       | some k => ({ d with hiOff := k }, "ok")
       | none => bad
@@ -163,7 +173,7 @@ def stepLine (d : D) (line : String) : D × String :=
       | some thr, some fs, some co, some yv, some s0, some s1, some ys, some sy =>
         match parseOptRat? ey, parseRatList? pr, parseBool? an, parseRat? dt, parseBool? vpt with
         | some ey, some pr, some an, some dt, some vpt =>
-          match routineInit ⟨thr, fs, co, vpt⟩ ⟨yv, s0, s1, ys, sy, ey, pr, an, dt⟩ with
+          match routineInit ⟨thr, fs, co, vpt⟩ ⟨yv, s0, s1, ys, sy, ey, pr, an, dt, Tols.lib⟩ with
           | .error e => (d, showErr e)
           | .ok s => ({ d with sched := s }, showSched s)
         | _, _, _, _, _ => bad
@@ -190,10 +200,10 @@ def stepLine (d : D) (line : String) : D × String :=
           | none => d.vx.relSus u
         ({ d with vx := { d.vx with relSus := rs }, known := addKnown d.known (ps.map (·.1)) }, "ok")
       | none => bad
-  | ["vx", kind, eff, fails, ti, active, ek, el, draws] =>
-      match parseRat? eff, parseNatList? fails, parseInt? ti, parseNatList? active, parseElig? ek el,
+  | ["vx", kind, eff, fails, ti, oti, active, ek, el, draws] =>
+      match parseRat? eff, parseNatList? fails, parseInt? ti, parseInt? oti, parseNatList? active, parseElig? ek el,
             parsePairs? (·.toNat?) draws with
-      | some eff, some fails, some ti, some active, some e, some draws =>
+      | some eff, some fails, some ti, some oti, some active, some e, some draws =>
         let v? : Option Vaccine := match kind with
           | "inert" => some .inert
           | "leaky" => some (.leaky eff)
@@ -203,37 +213,37 @@ def stepLine (d : D) (line : String) : D × String :=
         | none => bad
         | some v =>
           let d := { d with known := addKnown d.known active }
-          match vxStep d.gate (convFloat d.sched.dt) d.sched v ti active e (drawOf draws) d.vx with
+          match vxStep d.gate (convFloat d.sched.dt) d.sched v ⟨ti, oti⟩ active e (drawOf draws) d.vx with
           | .error err => (d, showErr err)
           | .ok (acc, r) =>
             let d := { d with vx := r, known := addKnown d.known acc }
             (d, showVx d acc)
-      | _, _, _, _, _, _ => bad
+      | _, _, _, _, _, _, _ => bad
   | ["dx", nres, states] =>
       match parseNat? nres, parseNatList? states with
       | some nres, some states => ({ d with dx := ⟨nres, states.map (fun s => ⟨s⟩)⟩ }, "ok")
       | _, _ => bad
-  | ["screen", ti, active, ek, el, draws, picks] =>
-      match parseInt? ti, parseNatList? active, parseElig? ek el, parsePairs? (·.toNat?) draws,
+  | ["screen", ti, oti, active, ek, el, draws, picks] =>
+      match parseInt? ti, parseInt? oti, parseNatList? active, parseElig? ek el, parsePairs? (·.toNat?) draws,
             parseTriples? (·.toNat?) picks with
-      | some ti, some active, some e, some draws, some picks =>
+      | some ti, some oti, some active, some e, some draws, some picks =>
         let d := { d with known := addKnown d.known active }
-        match screenStep d.hasCov d.gate (convFloat d.sched.dt) d.sched d.dx d.flags ti active (checkEligibility active e)
-                (drawOf draws) (lookup2D picks (d.dx.nres - 1)) d.test with
+        match screenStep d.hasCov d.gate (convFloat d.sched.dt) d.sched d.dx d.flags ⟨ti, oti⟩ active (checkEligibility active e)
+                (drawOf draws) (lookup2D picks (d.dx.nres - 1)) d.test d.resLen with
         | .error err => (d, showErr err)
         | .ok (acc, r) =>
           let d := { d with test := r, known := addKnown d.known acc }
           (d, showTest d acc)
-      | _, _, _, _, _ => bad
-  | ["triage", ti, active, ek, el, draws, picks] =>
-      match parseInt? ti, parseNatList? active, parseElig? ek el, parsePairs? (·.toNat?) draws,
+      | _, _, _, _, _, _ => bad
+  | ["triage", ti, oti, active, ek, el, draws, picks] =>
+      match parseInt? ti, parseInt? oti, parseNatList? active, parseElig? ek el, parsePairs? (·.toNat?) draws,
             parseTriples? (·.toNat?) picks with
-      | some ti, some active, some e, some draws, some picks =>
-        match triageStep d.hasCov d.gate (convFloat d.sched.dt) d.sched d.dx d.flags ti active (checkEligibility active e)
+      | some ti, some oti, some active, some e, some draws, some picks =>
+        match triageStep d.hasCov d.gate (convFloat d.sched.dt) d.sched d.dx d.flags ⟨ti, oti⟩ active (checkEligibility active e)
                 (drawOf draws) (lookup2D picks (d.dx.nres - 1)) with
         | .error err => (d, showErr err)
         | .ok (acc, out) => (d, s!"ok acc={showList toString acc} out={showOutcomes out}")
-      | _, _, _, _, _ => bad
+      | _, _, _, _, _, _ => bad
   | ["tx", rows] =>
       match parseTxRows? rows with
       | some rows => ({ d with tx := rows }, "ok")
@@ -246,7 +256,9 @@ def stepLine (d : D) (line : String) : D × String :=
         | .error err => (d, showErr err)
         | .ok el =>
           let d := { d with known := addKnown d.known active }
-          let (treated, st) := treatNumStep d.hiOff cap p d.tx active el el (drawOf draws) (drawOf2 effdraws) d.treat
+          let (treated, st) := match d.clear with
+            | none => treatNumStep d.hiOff cap p d.tx active el el (drawOf draws) (drawOf2 effdraws) d.treat
+            | some c => syphTreatStep c d.hiOff cap p d.tx active el el (drawOf draws) (drawOf2 effdraws) d.treat
           let d := { d with treat := st, known := addKnown (addKnown d.known treated) st.queue }
           (d, showTreat d treated)
       | _, _, _, _, _, _ => bad
